@@ -5,6 +5,7 @@ package main
 // A function-coverage run of all quick checks (VERIF_COVERDIR, bin/cover) showed none of these was reached by any stream.
 
 import (
+	"context"
 	"bytes"
 	"encoding/hex"
 	"fmt"
@@ -337,5 +338,59 @@ func genFromTxC12(e *emitter, r *rng, n int) {
 		}
 		res := e.run("C12.fromtx", descTx(pvs), hex.EncodeToString(k.pubC))
 		e.note("fromtx." + strings.Fields(res)[0])
+	}
+}
+
+func init() {
+	// C11.noquote <txdesc> <n|s|d|z>: every fee-dependent operation with a quote that cannot answer (nil quote, standard
+	// or data fee missing, zero-value FeeQuote): each must return an error, never a number, and leave the transaction alone
+	executors["C11.noquote"] = func(a []string) string {
+		mk := func() *bt.FeeQuote {
+			switch a[1] {
+			case "n":
+				return nil
+			case "s":
+				return bt.NewFeeQuote().AddQuote(bt.FeeTypeStandard, nil)
+			case "d":
+				return bt.NewFeeQuote().AddQuote(bt.FeeTypeData, nil)
+			}
+			return &bt.FeeQuote{}
+		}
+		return safe(func() string {
+			var out []string
+			run := func(name string, f func(tx *bt.Tx, fq *bt.FeeQuote) error) {
+				tx := parseDesc(a[0])
+				before := descTx(tx)
+				err := f(tx, mk())
+				r := "ok"
+				if err != nil {
+					r = "err"
+				}
+				if descTx(tx) != before {
+					r += "+changed"
+				}
+				out = append(out, name+"="+r)
+			}
+			run("paid", func(tx *bt.Tx, fq *bt.FeeQuote) error { _, err := tx.IsFeePaidEnough(fq); return err })
+			run("estpaid", func(tx *bt.Tx, fq *bt.FeeQuote) error { _, err := tx.EstimateIsFeePaidEnough(fq); return err })
+			run("estfees", func(tx *bt.Tx, fq *bt.FeeQuote) error { _, err := tx.EstimateFeesPaid(fq); return err })
+			run("change", func(tx *bt.Tx, fq *bt.FeeQuote) error { return tx.Change(scr([]byte{0x51}), fq) })
+			run("changeto", func(tx *bt.Tx, fq *bt.FeeQuote) error { return tx.ChangeToExistingOutput(0, fq) })
+			run("changeaddr", func(tx *bt.Tx, fq *bt.FeeQuote) error { return tx.ChangeToAddress("1BoatSLRHtKNngkdXEeobR76b53LETtpyT", fq) })
+			run("fund", func(tx *bt.Tx, fq *bt.FeeQuote) error {
+				return tx.Fund(context.Background(), fq, func(ctx context.Context, deficit uint64) ([]*bt.UTXO, error) {
+					return nil, bt.ErrNoUTXO
+				})
+			})
+			return strings.Join(out, " ")
+		})
+	}
+}
+
+func genNoQuoteC11(e *emitter, r *rng, n int) {
+	for i := 0; i < n; i++ {
+		tx := genFeeTx(r, r.n(4), r.n(4), 30, 40)
+		e.run("C11.noquote", descTx(tx), []string{"n", "s", "d", "z"}[i%4])
+		e.note("noquote")
 	}
 }
